@@ -41,9 +41,11 @@ class I:
 
 class Str:
     """&str / &[u8] / String contents: window (off, ln) over a z3 byte array."""
-    __slots__ = ('base', 'off', 'ln', 'is_str', 'cap', 'cbytes')
+    __slots__ = ('base', 'off', 'ln', 'is_str', 'cap', 'cbytes', 'abs_cap')
 
-    def __init__(self, base, off, ln, is_str=True, cap=None, cbytes=None):
+    def __init__(self, base, off, ln, is_str=True, cap=None, cbytes=None, abs_cap=None):
+        # abs_cap: size of the underlying zero-based buffer (enables constant-index enumeration of shifted windows)
+        self.abs_cap = abs_cap
         self.base, self.is_str = base, is_str
         # cbytes: python bytes of the whole underlying buffer when it is a compile-time constant (fast concrete reads)
         self.cbytes = cbytes
